@@ -26,7 +26,12 @@ use super::traits::InnerReaderTrait;
 ///
 /// According to benchmarking on compression of representative data, 4MB seems
 /// to be a good choice
+#[cfg(not(mla_verif))]
 const UNCOMPRESSED_DATA_SIZE: u32 = 4 * 1024 * 1024;
+#[cfg(mla_verif)]
+#[allow(clippy::cast_possible_truncation)]
+const UNCOMPRESSED_DATA_SIZE: u32 =
+    crate::verif::env_u64(option_env!("MLA_VERIF_BLOCK"), 4 * 1024 * 1024) as u32;
 
 /// A bigger value means a better compression ratio, but a slower compression
 ///
@@ -337,6 +342,29 @@ impl<'a, R: 'a + InnerReaderTrait> LayerReader<'a, R> for CompressionLayerReader
                     "[Compression Layer]: on initialization, must be in Ready state".to_string(),
                 ))
             }
+        }
+    }
+
+    #[cfg(mla_verif)]
+    #[allow(clippy::cast_possible_wrap)]
+    fn verif_state(&self, out: &mut Vec<(&'static str, i64)>) {
+        out.push(("comp_pos", self.underlayer_pos as i64));
+        match &self.state {
+            CompressionLayerReaderState::Ready(inner) => {
+                out.push(("comp_state", 0));
+                inner.verif_state(out);
+            }
+            CompressionLayerReaderState::InData {
+                read,
+                uncompressed_size,
+                decompressor,
+            } => {
+                out.push(("comp_state", 1));
+                out.push(("comp_read", i64::from(*read)));
+                out.push(("comp_usize", i64::from(*uncompressed_size)));
+                decompressor.get_ref().get_ref().verif_state(out);
+            }
+            CompressionLayerReaderState::Empty => out.push(("comp_state", 2)),
         }
     }
 }
@@ -669,6 +697,24 @@ impl<'a, W: 'a + InnerWriterTrait> LayerWriter<'a, W> for CompressionLayerWriter
         self.state = CompressionLayerWriterState::Ready(inner);
         Ok(())
     }
+
+    #[cfg(mla_verif)]
+    #[allow(clippy::cast_possible_wrap)]
+    fn verif_state(&self, out: &mut Vec<(&'static str, i64)>) {
+        out.push(("comp_w_blocks", self.compressed_sizes.len() as i64));
+        match &self.state {
+            CompressionLayerWriterState::Ready(inner) => {
+                out.push(("comp_w_state", 0));
+                inner.verif_state(out);
+            }
+            CompressionLayerWriterState::InData(written, compress) => {
+                out.push(("comp_w_state", 1));
+                out.push(("comp_w_written", i64::from(*written)));
+                compress.get_ref().inner.verif_state(out);
+            }
+            CompressionLayerWriterState::Empty => out.push(("comp_w_state", 2)),
+        }
+    }
 }
 
 impl<'a, W: 'a + InnerWriterTrait> Write for CompressionLayerWriter<'a, W> {
@@ -820,9 +866,39 @@ impl<'a, R: 'a + Read> LayerFailSafeReader<'a, R> for CompressionLayerFailSafeRe
     fn into_raw(self: Box<Self>) -> R {
         self.state.into_inner().into_raw()
     }
+
+    #[cfg(mla_verif)]
+    #[allow(clippy::cast_possible_wrap)]
+    fn verif_state(&self, out: &mut Vec<(&'static str, i64)>) {
+        match &self.state {
+            CompressionLayerFailSafeReaderState::Ready(inner) => {
+                out.push(("comp_fs_state", 0));
+                inner.verif_state(out);
+            }
+            CompressionLayerFailSafeReaderState::InData {
+                cache_filled_offset,
+                read_offset,
+                uncompressed_read,
+                inner,
+                ..
+            } => {
+                out.push(("comp_fs_state", 1));
+                out.push(("comp_fs_filled", *cache_filled_offset as i64));
+                out.push(("comp_fs_roff", *read_offset as i64));
+                out.push(("comp_fs_uread", i64::from(*uncompressed_read)));
+                inner.verif_state(out);
+            }
+            CompressionLayerFailSafeReaderState::Empty => out.push(("comp_fs_state", 2)),
+        }
+    }
 }
 
+#[cfg(not(mla_verif))]
 const FAIL_SAFE_BUFFER_SIZE: usize = 4096;
+#[cfg(mla_verif)]
+#[allow(clippy::cast_possible_truncation)]
+const FAIL_SAFE_BUFFER_SIZE: usize =
+    crate::verif::env_u64(option_env!("MLA_VERIF_FS_CACHE"), 4096) as usize;
 
 impl<'a, R: 'a + Read> Read for CompressionLayerFailSafeReader<'a, R> {
     /// This `read` is expected to end by failing
@@ -988,6 +1064,26 @@ impl<'a, R: 'a + Read> Read for CompressionLayerFailSafeReader<'a, R> {
             )
             .into()),
         }
+    }
+}
+
+// ---------- Verification hooks ----------
+
+#[cfg(mla_verif)]
+pub const fn verif_block_size() -> u64 {
+    UNCOMPRESSED_DATA_SIZE as u64
+}
+
+#[cfg(mla_verif)]
+pub const fn verif_fail_safe_buffer_size() -> u64 {
+    FAIL_SAFE_BUFFER_SIZE as u64
+}
+
+#[cfg(mla_verif)]
+impl CompressionConfig {
+    /// Bare layer configuration with a given level
+    pub const fn verif_with(compression_level: u32) -> Self {
+        Self { compression_level }
     }
 }
 
